@@ -315,6 +315,9 @@ impl ToLinker {
             if size != self.read {
                 return Err(Error::SizeMismatch(size, self.read));
             }
+        } else {
+            // No size was declared: record the number of bytes actually linked.
+            self.opts.size = Some(self.read);
         }
         if let Some(key) = self.key {
             index::insert(&self.cache, &key, self.opts)
@@ -456,6 +459,9 @@ impl SyncToLinker {
             if size != self.read {
                 return Err(Error::SizeMismatch(size, self.read));
             }
+        } else {
+            // No size was declared: record the number of bytes actually linked.
+            self.opts.size = Some(self.read);
         }
         if let Some(key) = self.key {
             index::insert(&cache, &key, self.opts)
